@@ -455,6 +455,9 @@ func (g *gen) safeAtom() slip.Object {
 		if r.Chance(30) {
 			return slip.Symbol(common.Pick(r, safePipeSymbols))
 		}
+		if c.pcase == "none" && r.Chance(20) {
+			return slip.Symbol(common.Pick(r, []string{"é", "日本", "—x", "a é", "Ünï", "λ", "x日"}))
+		}
 		return slip.Symbol(common.Pick(r, safeSymbols))
 	case x < 96:
 		g.ctx.Hist("leaf:nil")
@@ -889,6 +892,19 @@ func repairedCases() (out []repairedCase) {
 		for _, c := range []cfg{flat, pretty, with(pretty, func(c *cfg) { c.pcase = "up"; c.margin = 2 })} {
 			out = append(out, repairedCase{"C03-7", c, slip.Symbol(name)})
 			out = append(out, repairedCase{"C03-7", c, slip.List{slip.Symbol(name), slip.Symbol("x"), slip.Symbol(name)}})
+		}
+	}
+	// C03-8: non-ASCII names, *print-case* nil (inside the guard) and with a conversion (caseless scripts: the model's
+	// ASCII caseName agrees with strings.ToUpper / ToLower on them)
+	for _, name := range []string{"é", "日本", "—x", "a é", "x日", "日 本", "λ|", "\xffa", "a\x80", "ß", "É", "Ünï", "日本語-x", "𝄢"} {
+		for _, c := range []cfg{with(flat, func(c *cfg) { c.pcase = "none" }), with(pretty, func(c *cfg) { c.pcase = "none"; c.margin = 6 })} {
+			out = append(out, repairedCase{"C03-8", c, slip.Symbol(name)})
+			out = append(out, repairedCase{"C03-8", c, slip.List{slip.Symbol(name), slip.Symbol("x"), slip.Tail{Value: slip.Symbol(name)}}})
+		}
+	}
+	for _, name := range []string{"日本", "—x", "x日", "日 本", "日本語-x", "𝄢"} {
+		for _, c := range []cfg{flat, with(pretty, func(c *cfg) { c.pcase = "up" }), with(flat, func(c *cfg) { c.pcase = "cap" })} {
+			out = append(out, repairedCase{"C03-8", c, slip.List{slip.Symbol(name), slip.Symbol("x")}})
 		}
 	}
 	return
